@@ -58,7 +58,7 @@ theorem handled_keeps_clean (s : State) (r : DReq) (w : WR) (hw : s r.ty = some 
   cases he : r.err with
   | some msg =>
     cases hc : r.carries
-    · rw [delta_nack_silent s r msg he hc, hw]
+    · rw [delta_nack_silent s r msg w he hw hc]
       exact ⟨{ w with lastError := msg }, by simp [DRes.state], hal⟩
     · rw [delta_nack_sub_change_applied s r w msg he hw hc]
       exact ⟨deltaUpdateG true { w with lastError := msg } r, by simp [DRes.state], deltaUpdateG_always _ _ _⟩
@@ -86,7 +86,7 @@ theorem plain_request_silent (s : State) (r : DReq) (w : WR) (hw : s r.ty = some
     ∃ s', shouldRespondDelta s r = .out false s' := by
   have hc : r.carries = false := (carries_false_iff r).mpr ⟨hs, hu⟩
   cases he : r.err with
-  | some msg => exact ⟨_, delta_nack_silent s r msg he hc⟩
+  | some msg => exact ⟨_, delta_nack_silent s r msg w he hw hc⟩
   | none =>
     by_cases hst : r.nonce ≠ "" ∧ r.nonce ≠ w.nonceSent
     · exact ⟨_, delta_stale_nonce_silent s r w he hw hst.1 hst.2 hc⟩
